@@ -238,6 +238,16 @@ def E1_lmpdat_writer_reader(repo, clause):
     obs.append(Ob("E1", clause, r, r.node, sep_r is not None and seps_w == {sep_r},
                   "comment separator: reader re-attaches %r, writer writes %s (equal => text is stable after one pass)" % (sep_r, sorted(seps_w)),
                   construct="comment_string = '   # ' + comment", slot="comment-separator"))
+    # the re-attached comment is the stripped one
+    cs_def = [n for n in r.own_nodes() if isinstance(n, ast.Assign) and isinstance(n.value, ast.BinOp) and isinstance(n.value.op, ast.Add)
+              and isinstance(n.value.left, ast.Constant) and isinstance(n.value.left.value, str) and "#" in n.value.left.value and isinstance(n.value.right, ast.Name)]
+    if cs_def:
+        cname = cs_def[0].value.right
+        ds = r.rd.defs_of_use(cname)
+        stripped = bool(ds) and all(isinstance(d, ast.Assign) and isinstance(d.value, ast.Call) and call_name(d.value) == "strip" for d in ds)
+        obs.append(Ob("E1", clause, r, cs_def[0], stripped,
+                      "the comment re-attached to a coefficient line is the stripped comment (no trailing newline inside the stored text)", slot="comment-stripped",
+                      positive=bool(ds) and not stripped))
     # at most one '#': a single split into (line, comment)
     sp = [n for n in r.own_nodes() if isinstance(n, ast.Assign) and isinstance(n.targets[0], ast.Tuple) and isinstance(n.value, ast.Call)
           and call_name(n.value) == "split" and n.value.args and const_value(n.value.args[0]) == "#"]
@@ -293,6 +303,11 @@ def E1_lmpdat_writer_reader(repo, clause):
             obs.append(Ob("E1", clause, r, n_, nm_ == set(names),
                           "the cell is treated as tilted when ANY of the three tilt factors %s is non-zero (examined: %s)" % (names, sorted(nm_)),
                           slot="tilt-decision", positive=nm_ < set(names)))
+            cmps = [c_ for c_ in ast.walk(n_.test) if isinstance(c_, ast.Compare) and any(isinstance(x, ast.Name) and x.id in names for x in ast.walk(c_))]
+            ne = all(len(c_.ops) == 1 and isinstance(c_.ops[0], ast.NotEq) and eq_const(c_) is not None and eq_const(c_)[1] == 0 for c_ in cmps)
+            obs.append(Ob("E1", clause, r, n_, ne and bool(cmps),
+                          "each tilt factor is tested with `!= 0` (negative tilts are tilts too): %s" % [ast.unparse(c_) for c_ in cmps],
+                          slot="tilt-decision-operator", positive=bool(cmps) and all(len(c_.ops) == 1 for c_ in cmps)))
     # lo/hi: writer zip([0,0,0], np.diag(cell)); reader hi - lo
     def _float_sub(e):
         return e.args[0] if isinstance(e, ast.Call) and call_name(e) == "float" and e.args and isinstance(e.args[0], ast.Subscript) else None
@@ -396,6 +411,39 @@ def E2_cif_tags(repo, clause):
         obs.append(Ob("E2", clause, w, node, ok, "tag %s written by save_p1_cif is %s by load_p1_cif" % (t, "consumed" if ok else "NOT consumed"),
                       construct=t, slot="tag:%s" % t.lower(), positive=True))
     floor("E2", "CIF tags written", n, 20)
+    # PyCifRW returns loop keys lower-cased: tags that are subtracted from GetLoop(...).keys() must be lower-case
+    handled_lists = []
+    for n_ in r.own_nodes():
+        if isinstance(n_, ast.BinOp) and isinstance(n_.op, ast.Sub) and any(isinstance(c_, ast.Call) and call_name(c_) == "keys" for c_ in ast.walk(n_.left)):
+            he = expand(r, n_.right)
+            for s_ in ast.walk(he):
+                if isinstance(s_, ast.Constant) and isinstance(s_.value, str) and s_.value.startswith("_"):
+                    handled_lists.append(s_.value)
+            for nm_ in [x.id for x in ast.walk(he) if isinstance(x, ast.Name)]:
+                for d_ in r.own_nodes():
+                    if isinstance(d_, ast.Assign) and isinstance(d_.targets[0], ast.Name) and d_.targets[0].id == nm_:
+                        for s_ in ast.walk(_fold_label_comprehension(d_.value) if isinstance(d_.value, ast.ListComp) else d_.value):
+                            if isinstance(s_, ast.Constant) and isinstance(s_.value, str) and s_.value.startswith("_"):
+                                handled_lists.append(s_.value)
+    mixed = sorted({t for t in handled_lists if t != t.lower()})
+    obs.append(Ob("E2", clause, r, r.node, bool(handled_lists) and not mixed,
+                  "tags removed from the loop's key list are spelled in lower case, as the CIF library reports keys (%d tags; mixed-case: %s)" % (len(set(handled_lists)), mixed or "none"),
+                  construct="OrderedSet(block.GetLoop(...).keys()) - handled tags", slot="handled-tags-lowercase", positive=bool(mixed)))
+    # cell angles: each angle is between the two rows it names, normalised by the norms of the same two rows
+    cab = repo.fn("Atoms.cell_abc_alpha_beta_gamma")
+    accs = [c_ for c_ in calls_in(cab) if call_name(c_) == "arccos"]
+    want_pairs = [(1, 2), (0, 2), (0, 1)]
+    if len(accs) == 3:
+        for k_, c_ in enumerate(accs):
+            e_ = c_.args[0]
+            dots = [d for d in ast.walk(e_) if isinstance(d, ast.Call) and call_name(d) == "dot"]
+            norms = [d for d in ast.walk(e_) if isinstance(d, ast.Call) and call_name(d) == "norm"]
+            di = sorted(const_value(a.slice) for d in dots for a in d.args if isinstance(a, ast.Subscript))
+            ni = sorted(const_value(a.slice) for d in norms for a in d.args if isinstance(a, ast.Subscript))
+            ok_ = tuple(di) == want_pairs[k_] and tuple(ni) == want_pairs[k_]
+            obs.append(Ob("E2", clause, cab, c_, ok_,
+                          "%s = angle between lattice rows %s: dot product of rows %s normalised by the norms of rows %s" % (("alpha", "beta", "gamma")[k_], want_pairs[k_], di, ni),
+                          slot="cell-angle:%s" % ("alpha", "beta", "gamma")[k_], positive=len(di) == 2 and len(ni) == 2))
     # s.u. stripping: every float conversion of block values goes through tofloat
     tf = repo.nested(r, "tofloat")
     strips = any(isinstance(c, ast.Call) and call_name(c) == "sub" and c.args and isinstance(c.args[0], ast.Constant) and "\\(" in c.args[0].value
@@ -513,8 +561,17 @@ def E_cif_labels(repo, clause):
             ok = shape and before
             labels = app[0].value.func.value.id
             detail = "label = element + running count per element, counter incremented before use (injective by construction): shape=%s order=%s" % (shape, before)
-    obs.append(Ob("E6", clause, w, loops[0] if loops else w.node, ok, detail, slot="label-generation",
-                  positive=len(loops) == 1 and "shape=True order=False" in detail))
+    pos_ = len(loops) == 1 and "shape=True order=False" in detail
+    if not loops:
+        # a label loop that counts per atom TYPE (or anything else than the element) gives colliding labels
+        for lp_ in [n_ for n_ in w.own_nodes() if isinstance(n_, ast.For)]:
+            apps_ = [s_ for s_ in lp_.body if isinstance(s_, ast.Expr) and isinstance(s_.value, ast.Call) and call_name(s_.value) == "append"
+                     and s_.value.args and isinstance(s_.value.args[0], ast.BinOp) and const_value(s_.value.args[0].left) == "%s%d"]
+            if apps_ and not is_self_attr(lp_.iter, "elements"):
+                pos_ = True
+                detail = "labels are numbered per `%s` item, not per element: two atom types of the same element get the same labels (C1, C1, ...)" % ast.unparse(lp_.iter)
+                loops = [lp_]
+    obs.append(Ob("E6", clause, w, loops[0] if loops else w.node, ok, detail, slot="label-generation", positive=pos_))
     # every term label column is looked up through the same label list
     n = 0
     for c in ast.walk(w.node):
